@@ -171,20 +171,17 @@ func vCountNewEntries(res Map, stored []vStored) int {
 }
 
 func H_C12_newmap() {
-	if vTier() == 1 {
-		vC12(vSpec{Depth: 2, Width: 2, Kinds: "mlsn", KeyAlpha: "ab", KeyMin: 1, KeyMax: 1, StrAlpha: "x", StrMax: 0, NoListInList: true}, 2, false, true, 1)
-		return
-	}
-	vC12(vSpec{Depth: 2, Width: 2, Kinds: "mlsn", KeyAlpha: "ab", KeyMin: 1, KeyMax: 1, StrAlpha: "x", StrMax: 0, NoListInList: true}, 1, false, true, 1)
+	vC12(vSpec{Depth: vP("depth", 2, 2), Width: vP("width", 2, 2), Kinds: "mlsn", KeyAlpha: "ab", KeyMin: 1, KeyMax: 1, StrAlpha: "x", StrMax: 0, NoListInList: true}, vP("pairs", 1, 2), false, true, 1)
 }
 
 // overlapping new paths: only the receiver's integrity is claimed
 func H_C12_overlap() {
-	if vTier() == 1 {
-		vC12(vSpec{Depth: 2, Width: 2, Kinds: "mls", KeyAlpha: "ab", KeyMin: 1, KeyMax: 1, StrAlpha: "x", StrMax: 0, NoListInList: true}, 2, true, true, 1)
-		return
+	wild := vP("wild", 0, 1) == 1
+	idx := -1
+	if wild {
+		idx = 1
 	}
-	vC12(vSpec{Depth: 2, Width: 2, Kinds: "mls", KeyAlpha: "ab", KeyMin: 1, KeyMax: 1, StrAlpha: "x", StrMax: 0, NoListInList: true}, 2, true, false, -1)
+	vC12(vSpec{Depth: vP("depth", 2, 2), Width: vP("width", 2, 2), Kinds: "mls", KeyAlpha: "ab", KeyMin: 1, KeyMax: 1, StrAlpha: "x", StrMax: 0, NoListInList: true}, vP("pairs", 2, 2), true, wild, idx)
 }
 
 // a later new path that runs through a projected value down into a list of the receiver
